@@ -633,13 +633,16 @@ def instr_shard(res, ctx, tier, n):
                 first = True
                 # word-aligned, and one byte further: the unaligned access is made byte by byte (SCTLR.U = 1, A = 0; all
                 # attribute choices of this shard are Normal memory), each byte translated with the access's privilege
-                for insn, mode, mis in itertools.product(INSNS, ("usr", "svc"), (0, 1)):
+                # ... and a word that straddles the end of the mapped unit (its last two bytes and the first two of
+                # whatever follows): every byte has its own translation
+                for insn, mode, mis in itertools.product(INSNS, ("usr", "svc"), (0, 1, None)):
                     if insn[2] and mode == "usr":
                         continue
                     if not first:
                         ctx.plan.restore(snap)
                     first = False
-                    instr_case(ctx, res, p, va + mis, mode, insn, CODE_VA, "ttbr%d/%s" % (which, kind))
+                    v_ = (va + mis) if mis is not None else (uva + size - 2) & M32
+                    instr_case(ctx, res, p, v_, mode, insn, CODE_VA, "ttbr%d/%s" % (which, kind))
     res.sample({"shard": "instr", "N": n, "program": "LDR/STR/LDRT/STRT r2,[r1] at VA %#x (section -> PA %#x)" % (CODE_VA, CODE)})
 
 
@@ -666,7 +669,28 @@ def instr_case(ctx, res, p, va, mode, insn, pc, site):
     fx = vmsa.translate(st0.loc, cfgd, st0.mem, pc, priv, False)
     if fx[0] != "ok" or fx[1].pa != CODE:
         raise RuntimeError("generator error: code VA does not translate to the code page: %r" % (fx,))
-    exp = vmsa.translate(st0.loc, cfgd, st0.mem, va, priv and not unpriv, store)
+    pas = None
+    partial = ()
+    if va % 4 == 0:
+        exp = vmsa.translate(st0.loc, cfgd, st0.mem, va, priv and not unpriv, store)
+    else:
+        # byte-wise access (SCTLR.U = 1, A = 0): bytes in ascending address order, each translated on its own; the
+        # first byte that faults aborts the access (bytes already stored are UNKNOWN)
+        exps = [vmsa.translate(st0.loc, cfgd, st0.mem, (va + i) & M32, priv and not unpriv, store) for i in range(4)]
+        if any(e[0] not in ("ok", "fault") for e in exps):
+            exp = exps[0] if all(e == exps[0] or e[0] == exps[0][0] == "either" for e in exps) and (va & 0xFFF) <= 0xFFC else None
+            if exp is None or exp[0] in ("either", "any"):
+                if exp is None or (va & 0xFFF) > 0xFFC:
+                    res.outcome("%s unaligned over an architecturally open translation: skipped" % name)
+                    return
+        else:
+            bad = [i for i, e in enumerate(exps) if e[0] != "ok"]
+            if bad:
+                exp = exps[bad[0]]
+                partial = tuple(exps[i][1].pa for i in range(bad[0])) if store else ()
+            else:
+                exp = exps[0]
+                pas = [e[1].pa for e in exps]
     res.outcome("%s %s" % (name, outcome_label(exp)))
     rp = dict(p, via=name, va=va, mode=mode, word=word, pc=pc)
     key = "%s %s%s " % (name, tags(p), site)
@@ -676,14 +700,14 @@ def instr_case(ctx, res, p, va, mode, insn, pc, site):
     alts = exp[1] if exp[0] == "either" else [exp]
     first = None
     for alt in alts:
-        m = instr_judge(ctx, alt, out, pre, post, va, store, names)
+        m = instr_judge(ctx, alt, out, pre, post, va, store, names, pas, partial)
         if m is None:
             return
         first = first or m
     res.fail(key + first[0], "va=%#x %s %s | %s | model: %r" % (va, mode, fmt_p(p), first[1], exp), rp)
 
 
-def instr_judge(ctx, exp, out, pre, post, va, store, names):
+def instr_judge(ctx, exp, out, pre, post, va, store, names, pas=None, partial=()):
     cfgd = ctx.cfgd
     ix = ctx.ix
     if exp[0] == "any":
@@ -699,12 +723,13 @@ def instr_judge(ctx, exp, out, pre, post, va, store, names):
     st = St(names, pre[0], pre[1], cfgd)
     if exp[0] == "ok":
         pa = exp[1].pa
+        bpa = pas if pas is not None else [pa + i for i in range(4)]
         if store:
             v = st.R(2)
             for i in range(4):
-                st.mem.wr(pa + i, (v >> (8 * i)) & 0xFF)
+                st.mem.wr(bpa[i], (v >> (8 * i)) & 0xFF)
         else:
-            st.setR(2, sum(st.mem.rd(pa + i) << (8 * i) for i in range(4)))
+            st.setR(2, sum(st.mem.rd(bpa[i]) << (8 * i) for i in range(4)))
         st.finish()
         d = st.compare(names, post[0], post[1])
         if not d:
@@ -718,6 +743,8 @@ def instr_judge(ctx, exp, out, pre, post, va, store, names):
     f = exp[1]
     rexc.take(st, ModelStop("dabort", fault=f.kind, addr=f.mva, write=store, domain=f.domain or 0, level=f.level))
     st.unknown.add("dfsr")
+    for b in partial:
+        st.mem_unknown.add(b)
     d = st.compare(names, post[0], post[1])
     took_abort = post[0][ix["cpsr"]] & 0x1F == 0b10111
     if not took_abort:
